@@ -64,6 +64,11 @@ type T struct {
 	Name string
 }
 
+type U struct {
+	Id    int64
+	Other string
+}
+
 var resolverGate func()
 
 func schema() *schemabuilder.Schema {
@@ -83,6 +88,9 @@ func schema() *schemabuilder.Schema {
 		}
 		return *args.X
 	})
+	// a second object type with other fields: one fragment spread under both types
+	q.FieldFunc("u", func(ctx context.Context) *U { return &U{7, "seven"} })
+	s.Object("U", U{})
 	obj := s.Object("T", T{})
 	obj.FieldFunc("self", func(t *T) *T { return t })
 	obj.FieldFunc("friends", func(t *T) []*T { return []*T{t} })
@@ -498,6 +506,13 @@ var constructs = map[string]string{
 	"float_for_int":         "{ echo(x: 1.5e300) }",
 	"unicode_escape":        "{ echo(x: \"\\u0000\\ud800\") }",
 	"block_comment_garbage": "{ t { id } } # \x00\xff",
+	// one named fragment spread under two object types, valid under the first one only
+	"fragment_on_two_types_t_u":    "{ t { ...F } u { ...F } } fragment F on T { name }",
+	"fragment_on_two_types_u_t":    "{ u { ...F } t { ...F } } fragment F on U { other }",
+	"fragment_on_two_types_nested": "{ t { self { ...F } } u { ...F } } fragment F on T { id name }",
+	"fragment_on_two_types_twice":  "{ t { ...F ...F } a: u { ...F } b: u { ...F } } fragment F on T { name }",
+	"fragment_on_two_types_inner":  "{ t { ...F } u { ...G } } fragment F on T { self { ...H } } fragment G on U { ...H } fragment H on T { name }",
+	"inline_fragment_other_type":   "{ u { ... on T { name } } }",
 }
 
 func deepNest(d int) string {
